@@ -243,6 +243,12 @@ class StmtMixin:
             st.frames[fid][tgt.id] = v
             return self.ok(st)
         if isinstance(tgt, (ast.Tuple, ast.List)):
+            if isinstance(v, VOpt):
+                from .state import quick_unsat
+                if quick_unsat([z for z, q in st.pc if q] + [v.isnone], 2000):
+                    v = v.inner                      # provably not None on this path
+            if isinstance(v, VObj) and v.sort in self.unpack_sorts:
+                v = self.unpack_sorts[v.sort](self, st, v)
             if isinstance(v, VTup):
                 if len(v.items) != len(tgt.elts):
                     return self.raise_(st, 'ValueError')
@@ -531,7 +537,30 @@ class StmtMixin:
         return [(st, 'raise', exc)]
 
     # ------------------------------------------------------------------ loops
+    @staticmethod
+    def loop_header(node):
+        if isinstance(node, ast.For):
+            return 'for %s in %s:' % (ast.unparse(node.target), ast.unparse(node.iter))
+        return 'while %s:' % ast.unparse(node.test)
+
     def loop_key(self, node):
+        """'#loopN'.  N is the ordinal of the loop in the function, unless the contract anchors its labels to loop headers
+        (`loop_anchors`: {'#loop3': 'for x in xs:'}): then a loop carries the label whose header it has -- so that a loop
+        inserted or removed elsewhere in the function does not detach the invariants from the loops they were written for."""
+        anchors = self.cur[0].extra.get('loop_anchors') if self.cur else None
+        if anchors:
+            hdr = self.loop_header(node)
+            same = [n for n in self.cur_loops if self.loop_header(n) == hdr]
+            labels = [k for k, h in anchors.items() if h == hdr]
+            if len(labels) == 1 and len(same) == 1:
+                return labels[0]
+            taken = set(anchors)
+            # an unanchored loop: an ordinal label outside the anchored ones (never steals the invariants of another loop)
+            free = [n for n in self.cur_loops if not (
+                [k for k, h in anchors.items() if h == self.loop_header(n)]
+                and len([m for m in self.cur_loops if self.loop_header(m) == self.loop_header(n)]) == 1)]
+            i = free.index(node) + 1
+            return '#loop_unanchored%d' % i
         return '#loop%d' % (self.cur_loops.index(node) + 1)
 
     def loop_spec(self, node):
